@@ -93,8 +93,10 @@ def check_cases(cases, want_sig=None):
         if any(e["k"] == "S" for e in c["entries"]):
             idx_twin[i] = len(batch2)
             batch2.append(irclib.c03_twin(c))
-    t1, info1 = irclib.run_cases(list(cases) + list(cases), tag="smoke-a")
-    t2, info2 = irclib.run_cases(batch2, tag="smoke-b")
+    # the two processes run in different time zones (UTC-9 / UTC+14): nothing a replica emits or stores may depend on the
+    # node's local time zone (C01: "nothing outside the log and the network name")
+    t1, info1 = irclib.run_cases(list(cases) + list(cases), tag="smoke-a", env_extra={"TZ": "America/Anchorage"})
+    t2, info2 = irclib.run_cases(batch2, tag="smoke-b", env_extra={"TZ": "Pacific/Kiritimati"})
     out = []
     n = len(cases)
     for i in range(n):
